@@ -17,6 +17,22 @@ PROPERTIES = {
         assumptions=["falsifiedBy is a pure function of the sample"],
         not_reached=["geometry kernels behind the requirement predicates (C04/C17)"],
     ),
+    "C19": dict(
+        modules=["distributions", "invocables"],
+        level="proof",
+        claim="enabled-set computation, weighted pick as an RNG-trace contract (probability proportional to weight among the enabled items under A3), shuffle exactly-once loop",
+        note="A3: laws of random.choices/randint; number of listed items bounded by 3 in the pick contract (symbolic weights and enabledness)",
+        assumptions=["A3: laws of the library RNG primitives"],
+        not_reached=[],
+    ),
+    "C08": dict(
+        modules=["relations"],
+        level="proof",
+        claim="bound extraction from requirement syntax is sound for every comparison operator and operand shape; relative-heading feasibility over-approximates; erosion/termination arithmetic",
+        note="shapely buffer/intersection assumed exact set operations; equality of distributions with/without pruning not reached (only: no feasible position lost, none added)",
+        assumptions=["matchConstant/matchValue modelled (eval in the namespace)"],
+        not_reached=["distribution equality over shapely results"],
+    ),
 }
 
 NOT_APPLICABLE = {}
